@@ -17,8 +17,9 @@ def jobs():
          'cif_container_get_item_loop', 'cif_container_prune', 'cif_container_free', 'u_strncpy_72']
     return [
         Job('parse_container', 'parser_prod_h.c', entry='harness_parse_container', enforce='parse_container', rec=True, replace=R, tus=['parser.c'],
-            loops=1, reach=['entered-skipping', 'sibling-handoff', 'stored'], min_obligations=50, timeout=1800, mem_gb=24, replay=False, trusted=[SUB],
-            flags=['--malloc-may-fail', '--malloc-fail-null'],
+            loops=0, no_loop_contracts=True, text_ui=True, unwindset=['parse_container_wrapped_for_contract_checking.0:4', 'parse_container.0:4'], flags=['--malloc-may-fail', '--malloc-fail-null', '--no-unwinding-assertions'],
+            bounded='at most 3 tokens per container at each nesting level (token loop unwound 3 times, longer runs cut); token types, handler answers, callback registration, nesting: unbounded',
+            reach=['entered-skipping', 'sibling-handoff', 'stored'], min_obligations=50, timeout=1800, mem_gb=44, replay=False, trusted=[SUB],
             clauses=['skip depth balanced on every path (incl. error exits and allocation failure)', 'start/end handlers, loop_ keyword and data-name callbacks silent while skipping',
                      'frames are created / looked up / pruned only outside a skip and only with a target container', 'error callback line >= 1']),
     ]
